@@ -636,6 +636,35 @@ func monitorPersist(sg structGen, prop string) Monitor {
 			if (prop == "C11" || prop == "C10" || prop == "C09") && !reloaded {
 				continue
 			}
+			if prop == "C17" && (name == "topk-mem" || name == "topk-redis") && ops[step].L[0].I() == opEquals &&
+				isOk(obs[step]) && okPayload(obs[step]).U() != 0 {
+				// Equals compares k and the two rates: a true answer for two Top-Ks constructed with
+				// different k or different rate bits (and not reloaded since) is wrong
+				ctor := func(inst int) Tok {
+					var c Tok
+					for t := 0; t < step; t++ {
+						a := ops[t].L
+						if len(a) > 1 && a[1].Kind == 0 && a[1].I() == inst {
+							switch a[0].I() {
+							case tkNew:
+								if isOk(obs[t]) {
+									c = ops[t]
+								}
+							case opImport, opReadFrom, opAttach:
+								c = Tok{}
+							}
+						}
+					}
+					return c
+				}
+				c0, c1 := ctor(ops[step].L[1].I()), ctor(ops[step].L[2].I())
+				if len(c0.L) >= 7 && len(c1.L) >= 7 &&
+					(c0.L[2].String() != c1.L[2].String() || c0.L[5].String() != c1.L[5].String() || c0.L[6].String() != c1.L[6].String()) {
+					out = append(out, MonViolation{name + "/Equals/true-but-parameters-differ",
+						fmt.Sprintf("Equals is true for Top-Ks built with (k, errorRate bits, accuracy bits) = (%s, %s, %s) and (%s, %s, %s)",
+							c0.L[2].String(), c0.L[5].String(), c0.L[6].String(), c1.L[2].String(), c1.L[5].String(), c1.L[6].String()), step})
+				}
+			}
 			if ops[step].L[0].I() == opEquals && isOk(obs[step]) {
 				lastEq[ops[step].L[1].String()+ops[step].L[2].String()] = okPayload(obs[step]).U() != 0
 			} else if ops[step].L[0].I() != opEquals && !sg.isQuery(ops[step]) {
